@@ -41,8 +41,16 @@ def run(ck):
             if isinstance(v.get("init"), dict) and any(is_call(x, ("size", "pos", "bytesAvailable")) for x in walk(v["init"])):
                 cur_locals.append((v, n))
 
+    counter = {}
+
     def is_cur(n):
         if n.get("k") == "ref" and any(n.get("decl") == v["decl"] for v, _ in cur_locals):
+            return True
+        # a size counter kept in a member (instead of asking the file): decided by the counter protocol below
+        m = skip_copies(n)
+        if not cur_locals and isinstance(m, dict) and m.get("k") == "member" and m.get("dk") == "field" and skip_copies(m.get("base")).get("k") == "this" \
+                and strip_tmpl(m.get("name", "")).startswith(RP + "::") and strip_tmpl(m["name"]) != LF and (m.get("type") or "").replace("const ", "") in ("int", "qint64", "long long", "long", "qsizetype"):
+            counter.setdefault(strip_tmpl(m["name"]), m)
             return True
         return is_call(n, ("QFileDevice::size", "QFile::size", "QIODevice::size")) and S.is_active_file(skip_copies(n).get("obj"))
 
@@ -109,7 +117,9 @@ def run(ck):
     ck.ob("C07-O1", sitestr(cs, rot[0]), not bad, "%d grid points (current 0..7, length 0..6, L 1..10): rotate() is reached whenever current > 0 and current + length + 1 > L" % n if not bad else
           "no rotation for (current, length, L) = %s: the file grows to %d > L bytes" % (bad[0], bad[0][0] + bad[0][1] + 1), key="checkSizeRotation|inequality")
     # ---- O2
-    if len(cur_locals) != 1:
+    if counter and not cur_locals:
+        counter_protocol(ck, S, sorted(counter)[0])
+    elif len(cur_locals) != 1:
         direct = [x for x in cs.calls() if is_call(x, ("size",)) ]
         ck.ob("C07-O2", sitestr(cs), None, "current size is not held in exactly one local (%d)" % len(cur_locals))
     else:
@@ -144,3 +154,50 @@ def run(ck):
     ck.ob("C07-O3", sitestr(snd), ok, "the check precedes the write of the record" if ok else "the record is written before the size check", key="send|check-after-write")
     wr = [n for n in S.io_send.calls() if name_is(n.get("callee"), ("QIODevice::write", "QIODevice::putChar"))]
     ck.ob("C07-O3", sitestr(S.io_send), len(wr) == 1, "a record is one write (never split across a rotation)" if len(wr) == 1 else "a record is written in %d pieces" % len(wr), key="IODeviceSink::send|split-record")
+
+
+def counter_protocol(ck, S, fld):
+    """the current size is a member counter: it equals the file's size only if it is loaded from the file whenever the active
+    file is (re)opened or first used, and advanced by exactly the bytes of every record"""
+    F = ck.facts
+    short = fld.split("::")[-1]
+    INIT = RP + "::m_initialized"
+
+    def size_of_active(e):
+        e = skip_copies(e)
+        return is_call(e, ("QFileDevice::size", "QFile::size", "QIODevice::size")) and S.is_active_file(skip_copies(e).get("obj"))
+
+    def writes(f):
+        out = []
+        for n in f.find(lambda n: n.get("k") == "binop" and n.get("op") in ("=", "+=", "-=") and is_this_field(n.get("lhs"), fld)):
+            out.append((n, n["op"], n.get("rhs")))
+        for n in f.find(lambda n: n.get("k") == "unop" and n.get("op") in ("++", "--") and is_this_field(n.get("e"), fld)):
+            out.append((n, n["op"], None))
+        return out
+    it, rt, ri = S.m["init"], S.m["rotate"], S.m["rotateIfNeeded"]
+    # (a) loaded from the file before the first check
+    g = S.g(it)
+    loads = [n for n, op, rhs in writes(it) if op == "=" and size_of_active(rhs)]
+    keep = g.projector(atom_eq(lambda n: is_this_field(n, INIT), False))
+    ok = bool(loads) and g.must_pass(set(g.sites_of_nodes(loads)), keep=keep)
+    ck.ob("C07-O2", sitestr(it), ok, "%s is loaded from the active file's size() on first use" % short if ok else
+          "%s is never loaded from the file: a log file left by a previous run counts as empty, so the file can grow to its old size + L" % short, key="checkSizeRotation|size-source")
+    # (b) re-loaded after every reopen in rotate()
+    g = S.g(rt)
+    opens = [n for n in rt.calls() if open_flags(n) is not None and S.is_active_file(n.get("obj"))]
+    rl = [n for n, op, rhs in writes(rt) if op == "=" and size_of_active(rhs)]
+    for o in opens:
+        ok = bool(rl) and g.postdominated(g.site_of(o), set(g.sites_of_nodes(rl)))
+        others = [describe(n) for n, op, rhs in writes(rt) if n not in rl]
+        ck.ob("C07-O2", sitestr(rt, o), ok, "after the reopen %s is re-loaded from size() (a failed rename keeps the old content)" % short if ok else
+              "after the reopen in rotate() %s is not re-loaded from the file (%s): when the rename failed the old content is still there" % (short, others or "no write"), key="rotate|size-counter-reset")
+    # (c) advanced by the added size of every record
+    g = S.g(ri)
+    adds = [n for n, op, rhs in writes(ri) if op == "+="]
+    keepL = g.projector(numeric_atom(ri, lambda x: 100 if is_this_field(x, RP + "::m_maxFileSize") else None))
+    ok = bool(adds) and g.must_pass(set(g.sites_of_nodes(adds)), keep=keepL)
+    if not adds:
+        snd = S.send
+        adds2 = [n for n, op, rhs in writes(snd) if op == "+="]
+        ok = bool(adds2) and S.g(snd).must_pass(set(S.g(snd).sites_of_nodes(adds2)))
+    ck.ob("C07-O2", sitestr(ri), ok, "%s is advanced on every send (with a size limit)" % short if ok else "%s is not advanced on every path of a send" % short, key="rotateIfNeeded|size-counter-advance")
